@@ -9,8 +9,10 @@ TECHNIQUE = "deterministic simulation: seeded schedules x release-arrival points
 RULE = (
     "a case = one simulated association (real acceptor AE; requestor is a real AE that abandons its "
     "response iterator and calls release(), or a scripted byte peer) in which A-RELEASE-RQ is delivered at "
-    "a seeded point relative to a C-FIND/C-GET handler producing k results; non-trivial = the request was "
-    "delivered while the handler was active or the reactor was otherwise busy; distinct = distinct run digests"
+    "a seeded point relative to a C-FIND/C-GET/C-MOVE handler producing k results (C-MOVE with a third real AE as "
+    "destination of the sub-operations), after 0-2 complete earlier operations (between DIMSE messages), while idle, or "
+    "while the acceptor's reactor is paused by a local send_c_echo() of an acceptor-side user thread; non-trivial = the "
+    "request was delivered while the handler was active or the reactor was otherwise busy; distinct = distinct run digests"
 )
 STUBS = ["scripted RawPeer (requestor side) in the 'raw' half of the cases"]
 ASSUMPTIONS = ["fault-free network (segmentation, delay and short writes only)"]
@@ -25,10 +27,15 @@ def budget(tier):
 def directed(tier):
     """Every arrival point of the release over the yield indices for k <= 4."""
     out = []
-    for op in ("find", "get"):
+    for op in ("find", "get", "move"):
         for k in range(0, 5 if tier == "thorough" else 3):
             for consume in range(0, k + 2):
                 out.append(_mk(op, k, "real", consume, 0.0, [0.002] * (k + 1), {"switch_pct": 30}, {"seg": "whole"}))
+    for pre in (["echo"], ["store"], ["find_full"], ["echo", "store"]):
+        out.append(_mk("idle", 0, "real", 0, 0.0, [], {"switch_pct": 30}, {"seg": "whole"}, pre=pre))
+        out.append(_mk("find", 2, "real", 1, 0.0, [0.002] * 3, {"switch_pct": 30}, {"seg": "whole"}, pre=pre))
+    for j in range(0, 8):
+        out.append(_mk("acc_send", 0, "real", 0, 0.0005 * j, [], {"switch_pct": 30}, {"seg": "whole"}, acc_delay=0.001))
     for k in range(0, 4):
         for j in range(0, 2 * k + 3):
             out.append(_mk("find", k, "raw", 0, 0.0015 * j, [0.003] * (k + 1), {"switch_pct": 30}, {"seg": "whole"}))
@@ -38,19 +45,28 @@ def directed(tier):
     return out
 
 
-def _mk(op, k, peer, consume, delay, sleeps, sched, net):
-    return {"op": op, "k": k, "peer": peer, "consume": consume, "delay": delay, "sleeps": sleeps,
-            "sched": sched, "net": net}
+def _mk(op, k, peer, consume, delay, sleeps, sched, net, pre=(), acc_delay=0.0):
+    d = {"op": op, "k": k, "peer": peer, "consume": consume, "delay": delay, "sleeps": sleeps,
+         "sched": sched, "net": net}
+    if pre:
+        d["pre"] = list(pre)
+    if op == "acc_send":
+        d["acc_delay"] = acc_delay
+    return d
 
 
 def gen(rng, idx, tier):
-    op = rng.choice(["find", "find", "get", "idle", "echo"])
+    op = rng.choice(["find", "find", "get", "move", "idle", "echo", "acc_send"])
     k = rng.randrange(0, 5)
     peer = rng.choice(["real", "raw"]) if op in ("find", "idle") else "real"
     sleeps = [rng.choice([0.0, 0.0005, 0.002, 0.01]) for _ in range(k + 1)]
     consume = rng.randrange(0, k + 2)
     delay = rng.choice([0.0, 0.0005, 0.001, 0.003, 0.008, 0.02]) * rng.random()
-    return _mk(op, k, peer, consume, round(delay, 6), sleeps, C.gen_sched(rng), C.gen_net(rng))
+    pre = []
+    if peer == "real" and rng.randrange(3) == 0:
+        pre = [rng.choice(["echo", "store", "find_full"]) for _ in range(rng.randrange(1, 3))]
+    acc_delay = round(rng.choice([0.0, 0.0005, 0.001, 0.003]) * rng.random(), 6)
+    return _mk(op, k, peer, consume, round(delay, 6), sleeps, C.gen_sched(rng), C.gen_net(rng), pre=pre, acc_delay=acc_delay)
 
 
 def shrink(sc):
@@ -63,6 +79,10 @@ def shrink(sc):
     if sc["consume"] > 0:
         d = dict(sc)
         d["consume"] = sc["consume"] - 1
+        yield d
+    if sc.get("pre"):
+        d = dict(sc)
+        d["pre"] = sc["pre"][:-1]
         yield d
     if sc["net"].get("seg") != "whole" or sc["net"].get("short_write_pct"):
         d = dict(sc)
@@ -108,16 +128,39 @@ def execute(sc, ctx):
             ctx.sleep(sleeps[k])
         sim.record("handler", op="get", phase="end")
 
+    def handle_move(event):
+        sim.record("handler", op="move", phase="start")
+        yield "127.0.0.1", 11113
+        yield k
+        for i in range(k):
+            ctx.sleep(sleeps[i])
+            sim.record("handler", op="move", phase="yield", i=i)
+            yield 0xFF00, C.store_ds(i)
+        if sleeps:
+            ctx.sleep(sleeps[k])
+        sim.record("handler", op="move", phase="end")
+
     def handle_store(event):
         sim.record("handler", op="store", phase="start")
         return 0x0000
 
+    def handle_echo(event):
+        sim.record("handler", op="echo", phase="start", assoc=ctx.label(event.assoc))
+        return 0x0000
+
     scp = ctx.make_ae("SCP", acse=total + 1, dimse=total + 1, network=total + 2)
-    scp.add_supported_context(Verification)
+    scp.add_supported_context(Verification, scu_role=True, scp_role=True)
     scp.add_supported_context(C.PR_FIND)
     scp.add_supported_context(C.PR_GET)
+    scp.add_supported_context(C.PR_MOVE)
     scp.add_supported_context(C.CT, scu_role=True, scp_role=True)
-    ctx.start_server(scp, handlers=[(evt.EVT_C_FIND, handle_find), (evt.EVT_C_GET, handle_get)])
+    scp.add_requested_context(C.CT)
+    ctx.start_server(scp, handlers=[(evt.EVT_C_FIND, handle_find), (evt.EVT_C_GET, handle_get), (evt.EVT_C_MOVE, handle_move),
+                                    (evt.EVT_C_STORE, handle_store), (evt.EVT_C_ECHO, handle_echo)])
+    if sc["op"] == "move":
+        dest = ctx.make_ae("DEST", acse=total + 1, dimse=total + 1, network=total + 2)
+        dest.add_supported_context(C.CT)
+        ctx.start_server(dest, port=11113, handlers=[(evt.EVT_C_STORE, handle_store)])
 
     if sc["peer"] == "raw":
         p = RawPeer(ctx)
@@ -142,16 +185,44 @@ def execute(sc, ctx):
     scu.add_requested_context(Verification)
     scu.add_requested_context(C.PR_FIND)
     scu.add_requested_context(C.PR_GET)
+    scu.add_requested_context(C.PR_MOVE)
     scu.add_requested_context(C.CT)
-    assoc = ctx.associate(scu, handlers=[(evt.EVT_C_STORE, handle_store)], ext_neg=[build_role(C.CT, scp_role=True)])
+    roles = [build_role(C.CT, scu_role=True, scp_role=True)]
+    if sc["op"] == "acc_send":
+        roles.append(build_role(C.VERIFICATION, scu_role=True, scp_role=True))
+    assoc = ctx.associate(scu, handlers=[(evt.EVT_C_STORE, handle_store), (evt.EVT_C_ECHO, handle_echo)], ext_neg=roles)
     ctx.obs["established"] = assoc.is_established
     if not assoc.is_established:
         return
+    for po in sc.get("pre", ()):
+        # complete earlier operations: the release then arrives "between DIMSE messages"
+        if po == "echo":
+            assoc.send_c_echo()
+        elif po == "store":
+            assoc.send_c_store(C.store_ds(7))
+        elif po == "find_full":
+            for _ in assoc.send_c_find(C.small_ds(0), C.PR_FIND):
+                pass
+    if sc["op"] == "acc_send":
+        def acc_user():
+            ok = ctx.wait_until(lambda: any(a.is_established for a in scp.active_associations), 1.0)
+            if not ok:
+                return
+            ctx.sleep(sc.get("acc_delay", 0.0))
+            a = [a for a in scp.active_associations][0]
+            sim.record("acc_send", phase="call")
+            try:
+                st = a.send_c_echo()
+                sim.record("acc_send", phase="return", res=repr(getattr(st, "Status", None) if st is not None and "Status" in st else "empty"))
+            except RuntimeError as e:
+                sim.record("acc_send", phase="return", res="raised:RuntimeError")
+        th = ctx.spawn(acc_user, "accuser")
     if sc["op"] == "echo":
         assoc.send_c_echo()
-    elif sc["op"] in ("find", "get"):
+    elif sc["op"] in ("find", "get", "move"):
         ident = C.small_ds(0)
-        it = assoc.send_c_find(ident, C.PR_FIND) if sc["op"] == "find" else assoc.send_c_get(ident, C.PR_GET)
+        it = {"find": lambda: assoc.send_c_find(ident, C.PR_FIND), "get": lambda: assoc.send_c_get(ident, C.PR_GET),
+              "move": lambda: assoc.send_c_move(ident, "DEST", C.PR_MOVE)}[sc["op"]]()
         n = 0
         for n in range(sc["consume"]):
             try:
@@ -165,6 +236,8 @@ def execute(sc, ctx):
     sim.record("release_sent", by="real")
     assoc.release()
     ctx.obs["req"] = ctx.assoc_state(assoc)
+    if sc["op"] == "acc_send":
+        th.join()
 
 
 def _analyse(sc, r):
@@ -195,7 +268,7 @@ def check(sc, r):
     if ab is not None:
         return out  # pynetdicom itself aborted: outside the property
     phase = _phase(sc, r)
-    where = "%s/%s" % (sc["op"], ("subop-pending" if phase.get("subop_pending") else "handler") if phase["active"] else "idle")
+    where = "%s/%s" % (sc["op"], ("subop-pending" if phase.get("subop_pending") else ("local-send" if phase.get("local_send") else "handler")) if phase["active"] else "idle")
     if rp is None:
         out.append(C.v("release-answered", "C07/no-release-rp/%s" % where,
                        "A-RELEASE-RQ delivered (seq %s, phase %s) but no A-RELEASE-RP written; acceptor events: released=%d aborted=%d" % (
@@ -218,15 +291,23 @@ def _phase(sc, r):
     if not got:
         return {"active": False, "yields": None}
     s = got[0]["seq"]
-    hs = [h for h in r.hist if h["kind"] == "handler" and h["op"] in ("find", "get")]
+    hs = [h for h in r.hist if h["kind"] == "handler" and h["op"] in ("find", "get", "move") and h["op"] == sc["op"]]
     start = next((h["seq"] for h in hs if h["phase"] == "start"), None)
     end = next((h["seq"] for h in hs if h["phase"] == "end"), None)
     ny = len([h for h in hs if h["phase"] == "yield" and h["seq"] < s])
     active = start is not None and start < s and (end is None or s < end)
     # is the SCP waiting for the response to a C-STORE sub-operation it sent?
-    sent = [h["seq"] for h in r.evts("acc0", "EVT_DIMSE_SENT") if h["msg"] == "C_STORE_RQ" and h["seq"] < s]
-    got = [h["seq"] for h in r.evts("acc0", "EVT_DIMSE_RECV") if h["msg"] == "C_STORE_RSP" and h["seq"] < s]
-    return {"active": active, "yields": ny, "subop_pending": len(sent) > len(got)}
+    # (C-GET: on this association; C-MOVE: on the sub-association to the destination, which is not the releasing peer)
+    # A sub-operation request written just after the release request was delivered (the SCP had not seen the
+    # indication yet) counts as well: what matters is that the SCP ended up waiting for a C-STORE response
+    # which the releasing peer never sent.
+    sent = [h["seq"] for h in r.evts("acc0", "EVT_DIMSE_SENT") if h["msg"] == "C_STORE_RQ"]
+    got = [h["seq"] for h in r.evts("acc0", "EVT_DIMSE_RECV") if h["msg"] == "C_STORE_RSP"]
+    # acceptor-side local send in progress (reactor paused by send_c_echo of an acceptor-side user thread)
+    calls = [h for h in r.hist if h["kind"] == "acc_send"]
+    # (also when the call starts just after the request was delivered but before the reactor looked at it)
+    local = any(h["phase"] == "call" for h in calls) and not any(h["phase"] == "return" and h["seq"] < s for h in calls)
+    return {"active": active or local, "yields": ny, "subop_pending": len(sent) > len(got), "local_send": local}
 
 
 def nontrivial(sc, r):
